@@ -8,6 +8,7 @@ and the FCFS notation; a single round-bracket string for pseudoknot-free structu
 """
 from core import history_probe, call_timed, Result, call, parallel_map
 from gen import g1
+from corr import cli_annotator
 from corr.c01 import component_sizes, components_ok
 
 
@@ -288,6 +289,8 @@ def run(ctx):
     both = list(zip(inputs, outs))
     for (tag, c), o in both[::max(1, len(both) // 6)][:6]:
         res.sample({"family": tag, "seq": c[0][:30], "pairs": c[1][:30], "all": o["all"][1][:4] if o["all"][0] == "ok" else o["all"]})
+    # the command-line tool as an observation point (harness/corr/cli_annotator.py)
+    cli_annotator.judge(res, "C16", cli_annotator.evaluate(ctx))
     return res
 
 
@@ -359,6 +362,8 @@ def mapping_lists(ctx, res):
 
 
 def replay(ctx, data):
+    if cli_annotator.is_cli(data.get("input")):
+        return cli_annotator.replay_cli("C16", data["input"])
     if data["input"].get("family") == "mapping":
         print(real_mapping(data["input"]))
         return
